@@ -187,10 +187,10 @@ hwloc_libxml_look_init(struct hwloc_xml_backend_data_s *bdata,
     if (hwloc__xml_verbose())
       fprintf(stderr, "%s: Loading XML topology without DTD\n",
 	      state->global->msgprefix);
-  } else if (strcmp((char *) dtd->SystemID, "hwloc2.dtd")) {
+  } else if (!dtd->SystemID || strcmp((char *) dtd->SystemID, "hwloc2.dtd")) {
     if (hwloc__xml_verbose())
       fprintf(stderr, "%s: Loading XML topology with wrong DTD SystemID (%s instead of %s)\n",
-	      state->global->msgprefix, (char *) dtd->SystemID, "hwloc2.dtd");
+	      state->global->msgprefix, dtd->SystemID ? (char *) dtd->SystemID : "(none)", "hwloc2.dtd");
   }
 
   root_node = xmlDocGetRootElement((xmlDocPtr) bdata->data);
@@ -286,10 +286,10 @@ hwloc_libxml_import_diff(struct hwloc__xml_import_state_s *state, const char *xm
     if (hwloc__xml_verbose())
       fprintf(stderr, "%s: Loading XML topologydiff without DTD\n",
 	      state->global->msgprefix);
-  } else if (strcmp((char *) dtd->SystemID, "hwloc2-diff.dtd")) {
+  } else if (!dtd->SystemID || strcmp((char *) dtd->SystemID, "hwloc2-diff.dtd")) {
     if (hwloc__xml_verbose())
       fprintf(stderr, "%s: Loading XML topologydiff with wrong DTD SystemID (%s instead of %s)\n",
-	      state->global->msgprefix, (char *) dtd->SystemID, "hwloc2-diff.dtd");
+	      state->global->msgprefix, dtd->SystemID ? (char *) dtd->SystemID : "(none)", "hwloc2-diff.dtd");
   }
 
   root_node = xmlDocGetRootElement(doc);
